@@ -1,6 +1,7 @@
 import Driver.Util
 import Driver.Filter
 import Driver.Syntax
+import Driver.Eval
 namespace Driver
 
 def dispatch (line : String) : String :=
@@ -8,6 +9,7 @@ def dispatch (line : String) : String :=
   | "xxh" :: rest => (handleXxh rest).getD "bad-op"
   | "pout" :: rest => (handlePout rest).getD "bad-op"
   | "parse" :: rest => (handleParse rest).getD "bad-op"
+  | "eval" :: rest => (handleEval rest).getD "bad-op"
   | "rt" :: rest => (handleRt rest).getD "bad-op"
   | "part" :: rest => (handlePart rest).getD "bad-op"
   | "bin" :: rest => (handleBin rest).getD "bad-op"
